@@ -1,5 +1,5 @@
 (* C05 — the theorems over the code version read from the source (Gen/CrashEffects.v, tie T1). *)
-From RipV Require Import Base.Prelude Model.Crash Proofs.CrashProofs Proofs.CrashCacheProofs Gen.CrashEffects.
+From RipV Require Import Base.Prelude Model.CrashCold Model.Crash Proofs.CrashProofs Proofs.CrashCacheProofs Proofs.CrashColdProofs Gen.CrashEffects.
 
 Lemma ver_eqb_eq a b : ver_eqb a b = true -> a = b.
 Proof.
@@ -43,3 +43,12 @@ Proof. exact (recover_valid_ver gen_ver hist k base more gen_ver_ok). Qed.
 
 Lemma effects_tied : gen_crash_effects_ok_b = true /\ gen_ver = fixed.
 Proof. split; [exact gen_crash_effects_ok | exact (ver_eqb_eq _ _ gen_ver_ok)]. Qed.
+
+(* the cold-start theorem over the per-writer sources read from the code (gen_cold_start: one entry per locked append) *)
+Lemma cold_start_generated : forall es : list ev,
+  (forall w, In w (writers es) -> (w < 11)%nat) ->
+  numbered_b (c_log (CrashCold.run (srcs_of gen_cold_start) created es)) = true.
+Proof.
+  intros es Hw. pose proof gen_cold_start_ok as H. apply andb_true_iff in H. destruct H as [Hl Ha].
+  apply Nat.eqb_eq in Hl. apply cold_start_numbered_gen; [exact Ha|]. rewrite Hl. exact Hw.
+Qed.
